@@ -1,7 +1,7 @@
 //! Shared machinery of C13, C15 and C16: histories of messages on the minimal
 //! SCPI device, executed in lock-step with the status model.
 use crate::bytes::escape;
-use crate::dev488::{MinDev, BOUNDED_CAP, MIN_TREE};
+use crate::dev488::{MinDev, BOUNDED_CAP, MIN_TREE, MIN_TREE_ALT};
 use crate::engine::{CheckResult, Failure, Obs};
 use crate::model::esr::{class_bit, is_command_error};
 use crate::model::status::{Item, RegSet, Status};
@@ -377,7 +377,10 @@ pub fn run_history(h: &History, scope: Scope, obs: &Obs) -> CheckResult {
         let ctx = &mut shared_ctx;
         mav_seen[step.mav as usize] = true;
         let mut resp: Vec<u8> = Vec::new();
-        let res = MIN_TREE.run(&bytes, &mut dev, ctx, &mut resp);
+        // histories with an odd number of steps run on the tree built from constructor functions with the
+        // common commands in a transparent default branch
+        let tree = if h.steps.len() % 2 == 1 { &MIN_TREE_ALT } else { &MIN_TREE };
+        let res = tree.run(&bytes, &mut dev, ctx, &mut resp);
         // model, unit by unit
         let mut want_resp: Vec<u8> = Vec::new();
         let mut any_resp = false;
